@@ -17,7 +17,7 @@ CHECKS = {
             "Decides the control-structure clause for all inputs: in the keep-going graph (Break edges removed) payload loops end only on exhaustion, a failing child/key/conversion never skips examination its success reaches, the accumulator is inspected only after all examination and is only ever replaced by the answer it was handed to (never reset), unconditional stops sit before or after the examination.",
             TB + "; which positions are faults is C05/C06; derived code per catalogue entry", "§5 C02"),
     "C03": ("proof", "path-sensitive stop-region walk from every Break edge / collapsed report site over MIR",
-            "From every Break edge and after every take_cf_content-collapsed site all feasible paths return Err(that error) without loop, child call, iterator step, payload access, user call or new report (merges only as hand-over). Built-in error types answer Break only.",
+            "From every Break edge and after every take_cf_content-collapsed site all feasible paths return Err(that error) without loop, child call, iterator step, payload access, user call or new report (merges only as hand-over); no report is made inside the function of an iterator consumer that always runs to the end (fold / for_each); a closure driving try_fold does not answer Continue on a stop path. Built-in error types answer Break only.",
             TB + "; holds together with C02's rules; derived code per catalogue entry", "§5 C03"),
 }
 
@@ -46,7 +46,7 @@ CHECKS["C15"] = ("proof", "effect-commutativity of map loops over MIR: allowed i
                  TB + "; the order of reports inside an accumulated error may differ (statement says set); derived code per catalogue entry", "§5 C15")
 
 CHECKS["C16"] = ("proof", "generator-level rules over the MIR of the proc-macro crate (merge guards, parser routing, reader loops, shape dispatch, panic census) + compile-fail witnesses with compiling twins",
-                 "For all derive inputs: single-valued attributes are only set under a dominating 'already set => Err' test on a witness that merge maintains, parsers write attributes only through merge, every #[deserr] attribute is parsed and merged with `?`, unknown names / rename_all values / trailing tokens return Err, validate_container_attributes rejects the listed combinations and dominates all use, unsupported shapes lead only to compile errors, the macro's panic sites are discharged. About 120 (quick) / 600 (thorough) poisoned derive inputs must be rejected by a derive-issued diagnostic while their twins compile; the witnesses are the part of the verdict that does not depend on how the parsers are written: while all of them are rejected, a complaint of a generator-level rule is recorded as UNDECIDED (parsers restructured), when one is accepted the rule findings say where.",
+                 "For all derive inputs: single-valued attributes are only set under a dominating 'already set => Err' test on a witness that merge maintains, parsers write attributes only through merge, every #[deserr] attribute is parsed and merged with `?`, unknown names / rename_all values / trailing tokens return Err, validate_container_attributes rejects the listed combinations and dominates all use, unsupported shapes lead only to compile errors, the macro's panic sites are discharged. About 210 (quick) / 650 (thorough) poisoned derive inputs (every cross-attribute cause also beside each legal companion attribute, in both orders) must be rejected by a derive-issued diagnostic while their twins compile; the witnesses are the part of the verdict that does not depend on how the parsers are written: while all of them are rejected, a complaint of a generator-level rule is recorded as UNDECIDED (parsers restructured), when one is accepted the rule findings say where.",
                  TB + "; rustc's verdict on the witness programs; syn invariants (named fields have identifiers, parse_quote! of fixed templates); decides the listed causes, not every conceivable unsupported input", "§5 C16")
 
 CHECKS["C05"] = ("other", "dispatch/table agreement, cast and callee allow-lists, provenance of Ok payloads and of format arguments over the MIR of the 30 scalar impls",
